@@ -163,15 +163,20 @@ def run(ck):
         kw = {}
         if method == 'fixed_vector':
             kw['fixed_vector'] = torch.tensor(rng.standard_normal(d), dtype=torch.float32)
+        n_trees = int(rng.choice([1, 1, 2, 3]))
+        if i % 5 == 4:      # forced splits on data that would fit in one leaf, several trees (the quota is per tree)
+            quota = int(rng.integers(1, 4)); n = int(rng.integers(2 ** (quota + 1), 2 ** (quota + 1) + 12)); L = n + int(rng.integers(0, 5))
+            n_trees = int(rng.choice([2, 3])); f = 0.0
+            X = xr.make_X(kind, n, d, rng); y = xr.make_y(task, X, rng)
         xr.seed_all(int(rng.integers(0, 2 ** 31)))
         model = xr.xRFM(rfm_params=xr.default_rfm_params(iters=0, reg=1e-2), max_leaf_size=L, number_of_splits=quota,
                         split_method=method, overlap_fraction=f, verbose=False, use_temperature_tuning=False,
-                        n_trees=1, refill_size=int(rng.integers(1, 12)), **kw)
+                        n_trees=n_trees, refill_size=int(rng.integers(1, 12)), **kw)
         Lm = int(model.max_leaf_size)
         yt = torch.tensor(y)
         rec = xr.fit_recorded(model, torch.tensor(X), yt, torch.tensor(Xv), torch.tensor(yv), timeout=120,
                               tolerate_empty_val=True)
-        desc = dict(kind='fit', i=i, n=n, L=Lm, f=f, quota=quota, method=method, data=kind, d=d, task=task, seed=ck.seed)
+        desc = dict(kind='fit', i=i, n=n, L=Lm, f=f, quota=quota, method=method, data=kind, d=d, task=task, n_trees=n_trees, seed=ck.seed)
         if rec.error is None and any(r.rec_empty_val for r in rec.rfms):
             ck.count('fits with a leaf whose validation set was empty (leaf scored on its own rows by the harness)')
         ck.count(f'method={method}'); ck.count(f'data={kind}'); ck.count(f'f={f}'); ck.count(f'quota={quota}')
@@ -181,27 +186,31 @@ def run(ck):
             ck.violation(f'fit did not return normally ({rec.error}) on {desc}', dict(desc, error=rec.error),
                          key=json.dumps(dict(site='fit', error=rec.error[0], method=method, data=kind)))
             continue
-        sh = xr.shape_of(rec.trees[0])
-        info = dict(depths=[], splits=0)
-        probs = oracle_shape(sh, Lm, f, quota, 0, info)
-        if f == 0.0 and quota is None and max(info['depths']) > ceil_log2_ratio(n, Lm):
-            probs.append(f'leaf depth {max(info["depths"])} > ceil(log2(n/L)) = {ceil_log2_ratio(n, Lm)}')
-        if quota is not None and info['splits'] < quota:
-            probs.append(f'only {info["splits"]} splits made, {quota} requested')
-        for lf in xr.leaves_of(rec.trees[0]):
-            ntrain = int(lf['rfm'].rec_train[0].shape[0])
-            if ntrain > Lm:
-                probs.append(f'leaf model trained on {ntrain} > {Lm} samples')
-        ck.case(dict(desc, shape=str(sh)[:300], depth=max(info['depths'])), nontrivial=info['splits'] >= 1,
-                sample=(info['splits'] >= 2))
-        ck.count(f'depth={max(info["depths"])}')
-        for p_ in probs:
-            ck.violation(p_ + f' on {desc}', dict(desc, shape=sh, problem=p_),
-                         key=json.dumps(dict(site='fit-shape', n=n, L=Lm, f=f, quota=quota)))
-        q = 'None' if quota is None else f'(Some {quota})'
-        coq = f'bres_eqb (build {n + 2}%nat {Lm} (ovf {coq_float(f)}) {q} 0 {n}) {xr.coq_shape(sh)}'
-        cases.append((i, coq))
-        meta[i] = desc
+        ck.count(f'n_trees={n_trees}')
+        if len(rec.trees) != n_trees and not (rec.trees and rec.trees[-1]['kind'] == 'leaf'):
+            ck.violation(f'{len(rec.trees)} trees built, {n_trees} requested, on {desc}', dict(desc), key='tree-count')
+        for ti, troot in enumerate(rec.trees):
+            sh = xr.shape_of(troot)
+            info = dict(depths=[], splits=0)
+            probs = oracle_shape(sh, Lm, f, quota, 0, info)
+            if f == 0.0 and quota is None and max(info['depths']) > ceil_log2_ratio(n, Lm):
+                probs.append(f'leaf depth {max(info["depths"])} > ceil(log2(n/L)) = {ceil_log2_ratio(n, Lm)}')
+            if quota is not None and info['splits'] < quota:
+                probs.append(f'tree {ti}: only {info["splits"]} splits made, {quota} requested')
+            for lf in xr.leaves_of(troot):
+                ntrain = int(lf['rfm'].rec_train[0].shape[0])
+                if ntrain > Lm:
+                    probs.append(f'leaf model trained on {ntrain} > {Lm} samples')
+            ck.case(dict(desc, tree=ti, shape=str(sh)[:300], depth=max(info['depths'])), nontrivial=info['splits'] >= 1,
+                    sample=(info['splits'] >= 2))
+            ck.count(f'depth={max(info["depths"])}')
+            for p_ in probs:
+                ck.violation(p_ + f' on {desc}', dict(desc, tree=ti, shape=sh, problem=p_),
+                             key=json.dumps(dict(site='fit-shape', n=n, L=Lm, f=f, quota=quota, tree=ti)))
+            q = 'None' if quota is None else f'(Some {quota})'
+            coq = f'bres_eqb (build {n + 2}%nat {Lm} (ovf {coq_float(f)}) {q} 0 {n}) {xr.coq_shape(sh)}'
+            cases.append((f'{i}.{ti}', coq))
+            meta[f'{i}.{ti}'] = desc
     res = ck.run_bool_cases('fits', HEADER, cases, shard=50)
     bad = [meta[k] for k, v in res.items() if v is not True]
     ck.obligation(f'correspondence: tree shapes of {len(cases)} real fits == Coq build', 'correspondence', not bad,
